@@ -234,3 +234,177 @@ Lemma build_not_missing : forall ctx pa p k fl pl its nx, is_missing (fst (build
 Proof.
   intros. pose proof (build_is_node ctx pa p k fl pl its nx). destruct (fst (build ctx pa p (LitNode k fl pl its) nx)); simpl in *; auto; discriminate.
 Qed.
+
+(* ======================= any position, not only a root ================================================================ *)
+(* the container an operation addresses, wherever it sits *)
+Definition at_is (st : state) (ps : pos) (tid : N) (k : kind) (pa : option N) (fl : flags) (its : list (key * node)) : Prop :=
+  get_at st ps = Some (Node tid k pa (snd ps) fl its).
+(* no list on the way from the root down to (and excluding) the target holds the MISSING_VALUE marker *)
+Definition anc_clean (st : state) (ps : pos) : Prop :=
+  forall pre suf i pa pt fl its, snd ps = pre ++ suf -> suf <> [] ->
+    get_at st (fst ps, pre) = Some (Node i KList pa pt fl its) -> clean its.
+
+Lemma assoc_map_assoc : forall A k (g : A -> A) l, assoc k (map_assoc k g l) = option_map g (assoc k l).
+Proof. induction l as [|[k' v] l IH]; simpl; auto. destruct (key_eqb k k') eqn:E; simpl; rewrite E; auto. Qed.
+Lemma get_in_update_in_prefix : forall pre suf f t,
+  get_in pre (update_in (pre ++ suf) f t) = option_map (update_in suf f) (get_in pre t).
+Proof.
+  induction pre as [|k pre IH]; intros; simpl; auto.
+  destruct t as [l|i kd pa pt fl its]; simpl; auto.
+  rewrite assoc_map_assoc. destruct (assoc k its); simpl; auto.
+Qed.
+Lemma get_at_update_at_prefix : forall st r pre suf f,
+  get_at (update_at st (r, pre ++ suf) f) (r, pre) = option_map (update_in suf f) (get_at st (r, pre)).
+Proof.
+  intros. unfold update_at, get_at. simpl. destruct (get_root st r) as [t|] eqn:G.
+  - rewrite get_root_set_root_same by (eapply get_root_lt; eauto). apply get_in_update_in_prefix.
+  - rewrite G. reflexivity.
+Qed.
+Lemma get_at_update_at_same : forall st ps f t, get_at st ps = Some t -> get_at (update_at st ps f) ps = Some (f t).
+Proof.
+  intros. destruct ps as [r p]. pose proof (get_at_update_at_prefix st r p [] f) as H0.
+  rewrite app_nil_r in H0. rewrite H0, H. reflexivity.
+Qed.
+Lemma get_at_update_at_other : forall st r p f r' p', r' <> r -> get_at (update_at st (r, p) f) (r', p') = get_at st (r', p').
+Proof. intros. unfold get_at. simpl. rewrite get_root_update_at_other; auto. Qed.
+Lemma keeps_roots_get_at : forall st st' ps t, keeps_roots st st' -> get_at st ps = Some t -> get_at st' ps = Some t.
+Proof.
+  unfold get_at; intros. destruct (get_root st (fst ps)) eqn:G; try discriminate. rewrite (H _ _ G). auto.
+Qed.
+Lemma same_roots_get_at : forall st st1 ps, roots st1 = roots st -> get_at st1 ps = get_at st ps.
+Proof. intros; unfold get_at, get_root; rewrite H; auto. Qed.
+Lemma get_at_gc : forall old base keep st ps t, (fst ps < old)%nat -> get_at st ps = Some t -> get_at (gc old base keep st) ps = Some t.
+Proof.
+  unfold get_at; intros. destruct (get_root st (fst ps)) eqn:G; try discriminate. rewrite (get_root_gc _ _ _ _ _ _ H G). auto.
+Qed.
+Lemma get_at_lt : forall st ps t, get_at st ps = Some t -> (fst ps < length (roots st))%nat.
+Proof. unfold get_at; intros. destruct (get_root st (fst ps)) eqn:G; try discriminate. eapply get_root_lt; eauto. Qed.
+
+(* on a well-formed clean list, change notification (drop the markers, re-index) changes nothing *)
+Lemma map_assoc_id : forall A k (g : A -> A) l, (forall v, assoc k l = Some v -> g v = v) -> map_assoc k g l = l.
+Proof.
+  induction l as [|[k' v] l IH]; simpl; intros; auto. destruct (key_eqb k k') eqn:E.
+  - rewrite H; auto.
+  - f_equal. apply IH. auto.
+Qed.
+Lemma update_in_id : forall p f t, (forall c, get_in p t = Some c -> f c = c) -> update_in p f t = t.
+Proof.
+  induction p as [|k p IH]; intros; simpl in *; auto.
+  destruct t as [l|i kd pa pt fl its]; auto. f_equal. apply map_assoc_id. intros v A. apply IH. intros c G. apply H. simpl. rewrite A. auto.
+Qed.
+Lemma set_nth_same : forall A (l : list A) n x, nth_error l n = Some x -> set_nth n x l = l.
+Proof. induction l; destruct n; simpl; intros; try discriminate; auto. inv H; auto. f_equal; auto. Qed.
+Lemma update_at_id : forall st ps f, (forall c, get_at st ps = Some c -> f c = c) -> update_at st ps f = st.
+Proof.
+  intros. unfold update_at. destruct (get_root st (fst ps)) as [t|] eqn:G; auto.
+  rewrite update_in_id. 2:{ intros c GI. apply H. unfold get_at. rewrite G. auto. }
+  unfold set_root. unfold get_root in G. destruct (nth_error (roots st) (fst ps)) as [[x|]|] eqn:N; inv G.
+  rewrite set_nth_same; auto. destruct st; reflexivity.
+Qed.
+Lemma last_key_app : forall p k, last_key (p ++ [k]) = Some k.
+Proof. intros; unfold last_key. rewrite rev_app_distr. reflexivity. Qed.
+Lemma renum_from_id : forall cid cp l i, positions i (map fst l) -> Forall (child_wf cid cp) l -> renum_from cp i l = l.
+Proof.
+  induction l as [|[k c] l IH]; simpl; intros; auto. destruct H as [E P]. simpl in E. subst k. inv H0.
+  rewrite IH; auto. f_equal. f_equal. red in H2. simpl in H2. destruct c; simpl; auto.
+  apply wf_node_unfold in H2. destruct H2 as (_ & E & _). subst pth. rewrite last_key_app, key_eqb_refl. reflexivity.
+Qed.
+Lemma purge_list_id : forall ep pt n, wf_node ep pt n -> (forall i pa p fl its, n = Node i KList pa p fl its -> clean its) -> purge_list n = n.
+Proof.
+  intros. destruct n as [l|i k pa p fl its]; auto. destruct k; auto.
+  apply wf_node_unfold in H. destruct H as (_ & E & K & F). subst p.
+  simpl. rewrite filter_clean by (eapply H0; eauto). f_equal. eapply renum_from_id; eauto.
+Qed.
+Lemma inits_prefix : forall A (p pre : list A), In pre (inits p) -> exists suf, p = pre ++ suf.
+Proof.
+  induction p; simpl; intros.
+  - destruct H; [subst; exists []; auto|contradiction].
+  - destruct H. subst. eexists; reflexivity.
+    apply in_map_iff in H. destruct H as (x & E & I). subst. destruct (IHp _ I) as (suf & ES). exists suf. simpl. congruence.
+Qed.
+Theorem fix_chain_id : forall st ps, wfs st ->
+  (forall pre suf i pa pt fl its, snd ps = pre ++ suf -> get_at st (fst ps, pre) = Some (Node i KList pa pt fl its) -> clean its) ->
+  fix_chain st ps = st.
+Proof.
+  intros st ps W H. unfold fix_chain.
+  assert (P : forall pre, In pre (prefixes_desc (snd ps)) -> exists suf, snd ps = pre ++ suf).
+  { intros pre I. unfold prefixes_desc in I. apply in_rev in I. apply inits_prefix; auto. }
+  induction (prefixes_desc (snd ps)) as [|pre l IH]; simpl; auto.
+  rewrite update_at_id.
+  - apply IH. intros; apply P; right; auto.
+  - intros c G. destruct (P pre (or_introl eq_refl)) as (suf & ES).
+    destruct (wfs_get_at _ _ _ W G) as (ep & WN). eapply purge_list_id; eauto.
+    intros; subst c. eapply H; eauto.
+Qed.
+
+(* replacing the items of the target keeps the lists above it clean *)
+Lemma is_missing_update_in_set_items : forall p x c, is_missing (update_in p (set_items x) c) = is_missing c.
+Proof. destruct p; destruct c; reflexivity. Qed.
+Lemma keeps_roots_get_at_eq : forall st st' r p t, keeps_roots st st' -> get_root st r = Some t -> get_at st' (r, p) = get_at st (r, p).
+Proof. intros. unfold get_at. simpl. rewrite (H _ _ H0), H0. reflexivity. Qed.
+Lemma anc_clean_update_items : forall st ps its', anc_clean st ps -> anc_clean (update_at st ps (set_items its')) ps.
+Proof.
+  unfold anc_clean. intros st [r p] its' AC pre suf i pa pt fl its E NE G. simpl in *. subst p.
+  rewrite get_at_update_at_prefix in G.
+  destruct (get_at st (r, pre)) as [n|] eqn:GA; try discriminate. simpl in G. inv G.
+  destruct suf as [|k suf]; try congruence. destruct n as [l|i0 k0 pa0 pt0 fl0 its0]; simpl in H0; try discriminate.
+  inv H0. specialize (AC pre (k :: suf) i pa pt fl its0 eq_refl NE GA).
+  unfold clean in *. apply Forall_map_assoc; auto. intros v Hv. simpl in *. rewrite is_missing_update_in_set_items. auto.
+Qed.
+Lemma anc_clean_keeps : forall st st' ps, keeps_roots st st' -> (exists t, get_root st (fst ps) = Some t) -> anc_clean st ps -> anc_clean st' ps.
+Proof.
+  unfold anc_clean. intros st st' [r p] K [t G] AC pre suf i pa pt fl its E NE GA. simpl in *.
+  rewrite (keeps_roots_get_at_eq _ _ _ _ _ K G) in GA. eauto.
+Qed.
+Lemma anc_clean_same_roots : forall st st1 ps, roots st1 = roots st -> anc_clean st ps -> anc_clean st1 ps.
+Proof. unfold anc_clean; intros. rewrite (same_roots_get_at _ _ _ H) in H3. eauto. Qed.
+Lemma get_at_root_some : forall st ps t, get_at st ps = Some t -> exists t0, get_root st (fst ps) = Some t0.
+Proof. unfold get_at; intros. destruct (get_root st (fst ps)); eauto; discriminate. Qed.
+
+Lemma keeps_other_get_at : forall r st st' ps t, keeps_other r st st' -> fst ps <> r -> get_at st ps = Some t -> get_at st' ps = Some t.
+Proof.
+  unfold get_at; intros. destruct (get_root st (fst ps)) eqn:G; try discriminate. rewrite (H _ _ H0 G). auto.
+Qed.
+Lemma anc_clean_keeps_other : forall r st st' ps, keeps_other r st st' -> fst ps <> r -> (exists t, get_root st (fst ps) = Some t) ->
+  anc_clean st ps -> anc_clean st' ps.
+Proof.
+  unfold anc_clean. intros r st st' [r0 p] K NE [t G] AC pre suf i pa pt fl its E NS GA. simpl in *.
+  assert (get_at st' (r0, pre) = get_at st (r0, pre)) by (unfold get_at; simpl; rewrite (K _ _ NE G), G; auto).
+  rewrite H in GA. eauto.
+Qed.
+Lemma anc_clean_root : forall st r, anc_clean st (r, []).
+Proof. unfold anc_clean; simpl; intros. destruct pre; destruct suf; simpl in *; try discriminate; congruence. Qed.
+(* new items for a list: re-indexed, they are well-formed children again *)
+Lemma wfs_list_items : forall st ps tid pa pt fl its its',
+  wfs st -> get_at st ps = Some (Node tid KList pa pt fl its) -> Forall (child_wf_any tid pt) its' ->
+  wfs (update_at st ps (set_items (renum pt its'))).
+Proof.
+  intros. eapply wfs_replace_items; [exact H | exact H | exact H0 | auto | | ].
+  - simpl. apply renum_keys.
+  - apply renum_wf. auto.
+Qed.
+Lemma wfs_no_items : forall st ps tid k pa pt fl its, k <> KObj 0%N -> (forall c, k <> KObj c) ->
+  wfs st -> get_at st ps = Some (Node tid k pa pt fl its) -> wfs (update_at st ps (set_items [])).
+Proof.
+  intros. eapply wfs_replace_items; [exact H1 | exact H1 | exact H2 | auto | | constructor].
+  destruct k; simpl; auto. constructor. exfalso; eapply H0; eauto.
+Qed.
+
+Lemma anc_clean_same_root : forall st st' ps, get_root st' (fst ps) = get_root st (fst ps) -> anc_clean st ps -> anc_clean st' ps.
+Proof.
+  unfold anc_clean. intros st st' [r p] G AC pre suf i pa pt fl its E NS GA. simpl in *.
+  assert (get_at st' (r, pre) = get_at st (r, pre)) by (unfold get_at; simpl; rewrite G; auto).
+  rewrite H in GA. eauto.
+Qed.
+Lemma anc_clean_gc : forall old base keep st ps t, (fst ps < old)%nat -> get_at st ps = Some t -> anc_clean st ps ->
+  anc_clean (gc old base keep st) ps.
+Proof.
+  intros. destruct (get_at_root_some _ _ _ H0) as [t0 G]. eapply anc_clean_same_root; [|exact H1].
+  rewrite (get_root_gc _ _ _ _ _ _ H G). auto.
+Qed.
+Lemma erase_list_at : forall st ps tid pa fl its, wfs st -> at_is st ps tid KList pa fl its ->
+  erase (Node tid KList pa (snd ps) fl its) = plist (evals its).
+Proof.
+  intros. destruct (container_facts _ _ _ _ _ _ _ _ H H0) as (_ & K & _). simpl in K.
+  rewrite erase_node. unfold plist. f_equal. apply eitems_positions; auto.
+Qed.
